@@ -473,7 +473,7 @@ var spEdits = []string{"dupOperationID", "dropPathParam", "renamePathParam", "ex
 	"arrayNoItemsSchema", "nestedItemsNoItems", "requiredUndefined", "requiredViaAdditional", "dupInheritedProperty",
 	"circularAncestry", "overlapPaths", "badPatternParam", "badPatternHeader", "badPatternSchema", "badPatternItems",
 	"unresolvedSchemaRef", "unresolvedParamRef", "noPaths", "emptyPaths", "bodyViaSharedParam", "noResponses", "refWithSiblingDefault",
-	"refWithExtension", "pathParamNoPlaceholder", "requiredViaAdditionalSchema", "sameBodyNameTwice", "tupleDefaults", "diamondAncestry", "diamondSharedProperty", "cycleBelowStart", "oddPropertyNames"}
+	"refWithExtension", "pathParamNoPlaceholder", "requiredViaAdditionalSchema", "sameBodyNameTwice", "tupleDefaults", "diamondAncestry", "diamondSharedProperty", "cycleBelowStart", "oddPropertyNames", "aliasCycle"}
 
 func (g *spgen) applyEdit(doc M, kind string) bool {
 	ops := docOps(doc)
@@ -867,6 +867,18 @@ func (g *spgen) applyEdit(doc M, kind string) bool {
 			doc["definitions"] = defs
 		}
 		defs["Bag"] = M{"type": "object", "required": L{"id"}, "additionalProperties": M{"type": g.pick([]string{"string", "integer"})}}
+		return true
+	case "aliasCycle":
+		// two definitions that are bare references to each other, inherited from by a third: following the references never
+		// reaches a schema (circular ancestry; before the `fix:` commit the walk never returned)
+		defs, _ := doc["definitions"].(M)
+		if defs == nil {
+			defs = M{}
+			doc["definitions"] = defs
+		}
+		defs["AlA"] = M{"$ref": "#/definitions/AlB"}
+		defs["AlB"] = M{"$ref": "#/definitions/AlA"}
+		defs["AlC"] = M{"allOf": L{M{"$ref": "#/definitions/AlA"}, M{"type": "object"}}}
 		return true
 	case "oddPropertyNames":
 		// breaks no rule: properties named "" and "t." (their paths end in, or contain, a dot next to nothing) with bad defaults
